@@ -58,7 +58,8 @@ def gen_content(rng):
     n = max(1, int(rng.paretovariate(0.8))) if rng.random() < 0.8 else rng.randint(1, 200)
     n = min(n, 400)
     if mode == 'near':
-        c = gen.near_text(rng, n) if rng.random() < 0.6 else gen.runs_text(rng, n)
+        r = rng.random()
+        c = gen.near_text(rng, n) if r < 0.5 else gen.runs_text(rng, n) if r < 0.8 else gen.kanji_lookalike(rng, max(1, n // 2)).decode('latin1')
         return c.encode('latin1') if rng.random() < 0.25 else c
     if mode == 'uni':
         return ''.join(rng.choice(gen.UNI + gen.ASCII) for _ in range(n))
